@@ -72,7 +72,7 @@ EmitStatic ==
     /\ \A sg \in Signers, t \in TxTypes, c \in TxChains :
          PrintT(<<"SIGN", ToJson([sg |-> sg, type |-> t, txChain |-> c, outcome |-> SignOutcome(sg, t, c),
                                   signed |-> SignedTx(sg, t)])>>)
-    /\ \A i \in DOMAIN ForkNames : PrintT(<<"FORK", ToJson([fork |-> ForkNames[i], idx |-> i, kind |-> KindOfFork(i)])>>)
+    /\ \A i \in DOMAIN ForkNames : PrintT(<<"FORK", ToJson([fork |-> ForkNames[i], idx |-> i, kind |-> KindOfFork(i), latest |-> LatestKindOfFork(i)])>>)
     /\ \A t \in TxTypes : PrintT(<<"HASHFIELDS", ToJson([type |-> t, protected |-> TRUE, fields |-> SigHashFields(t, TRUE)])>>)
     /\ PrintT(<<"HASHFIELDS", ToJson([type |-> LegacyTx, protected |-> FALSE, fields |-> SigHashFields(LegacyTx, FALSE)])>>)
 
